@@ -242,11 +242,11 @@ def explore(ck, n, em, np, xrun=True):
         except Exception:
             pass
     if xrun:
-        numlib.float_cross(ck, calls)
+        numlib.float_cross(ck, calls, exe="drv_em")
 
 
 def main():
-    ck = vlib.Check(PROP, pkg="numeric", props="Proofs.Props.C08", driver="drv_num",
+    ck = vlib.Check(PROP, pkg="numeric", props="Proofs.Props.C08", driver="drv_em",
                     lemma_files=["Proofs/Lemmas/Consts.lean"], model_files=["GenReal/Em.lean", "GenReal/Constants.lean"],
                     trusted=["tools/py2lean (translator), validated each run by the Float cross-run against numpy",
                              "floating-point cancellation in exp(x)-1 / log(1+1/x) is validated over x in [1e-6, 600] with a conditioning-scaled tolerance, not proved",
@@ -263,7 +263,7 @@ def main():
     from typhon.physics import em
     xrun = True
     try:
-        ck.driver(["planck 0 0"], exe="drv_num")
+        ck.driver(["planck 0 0"], exe="drv_em")
     except vlib.InfraError:
         xrun = False
         ck.notes.append("Float driver not available (build broken): cross-run skipped")
